@@ -106,6 +106,10 @@ pub fn canonical_request(l: &Logical) -> Vec<u8> {
     out.extend(canonical_query(&l.query));
     out.push(b'\n');
     for (name, values) in &hs {
+        if values.is_empty() {
+            // a name listed in SignedHeaders without a header of that name contributes no line
+            continue;
+        }
         out.extend(name.as_bytes());
         out.push(b':');
         for (i, v) in values.iter().enumerate() {
@@ -198,6 +202,29 @@ pub fn sign(l: &Logical, secret: &[u8], unix_secs: i64, region: &str, service: &
         canonical_request: creq,
         string_to_sign: sts,
         scope,
+        signature,
+        signed_headers: signed_header_list(l),
+        amz_date,
+    }
+}
+
+/// Sign for an explicit scope string; the key is derived for (date, region, service).
+pub fn sign_scoped(l: &Logical, secret: &[u8], unix_secs: i64, scope: &str, kdate: &str, kregion: &str, kservice: &str) -> Signed {
+    let amz_date = compact_utc(unix_secs);
+    let creq = canonical_request(l);
+    let mut sts = Vec::new();
+    sts.extend(b"AWS4-HMAC-SHA256\n");
+    sts.extend(amz_date.as_bytes());
+    sts.push(b'\n');
+    sts.extend(scope.as_bytes());
+    sts.push(b'\n');
+    sts.extend(hex::encode(sha256(&creq)).as_bytes());
+    let key = derive_key(secret, kdate, kregion.as_bytes(), kservice.as_bytes());
+    let signature = hex::encode(hmac256(&key, &sts));
+    Signed {
+        canonical_request: creq,
+        string_to_sign: sts,
+        scope: scope.to_string(),
         signature,
         signed_headers: signed_header_list(l),
         amz_date,
